@@ -297,7 +297,7 @@ def model_check(v: Verdict, tier: str) -> None:
         raise tlc.MachineryError(f"reachability probes not all hit: {hit}")
 
 
-def traces_from_model_states(tier: str, r) -> List[dict]:
+def traces_from_model_states(tier: str, r):
     """Dump the reachable states of the quick model and exercise each through the real router."""
     wd = tlc.scratch_dir("rdump-")
     try:
@@ -324,7 +324,10 @@ def traces_from_model_states(tier: str, r) -> List[dict]:
         msgs = msgs + [msg_stim("d1", "setBLOBVector", "A"), msg_stim("d3", "setBLOBVector", "B"),
                        msg_stim("c1", "newTextVector", "A"), msg_stim("c2", "getProperties", NONAME)]
         traces.append(run_history(accept, TRACE_CLIENTS, TRACE_NAMES, stim + msgs))
-    return traces, nstates
+        if len(traces) >= (3000 if tier == "quick" else 400):
+            yield traces, nstates
+            traces = []
+    yield traces, nstates
 
 
 def run(prop: str, tier: str) -> int:
@@ -360,30 +363,48 @@ def run(prop: str, tier: str) -> int:
         return v.finish()
     model_check(v, tier)
     v.phase("model_check")
-    traces, nstates = traces_from_model_states(tier, r)
+    cfg = f"TraceRouter_{prop}.cfg"
+    rej: List[Any] = []
+    total = {"traces": 0, "tlc_states": 0}
+    last_sample: List[dict] = []
+
+    def consume(batch: List[dict]) -> None:
+        """book-keeping and trace validation of one batch (the traces are not kept: the thorough tier produces millions of events)"""
+        for t in batch:
+            prev = None
+            for ev in t["ev"]:
+                v.evaluations += 1
+                v.count_action(ev["op"] if ev["op"] != "msg" else "msg:" + ev["k"])
+                if ev["dlv"] or ev["op"] != "msg" or ev["k"] == "enableBLOB":
+                    v.nontrivial((str(prev), ev["op"], ev.get("s"), ev.get("k"), ev.get("n"), ev.get("v"), ev.get("d"), ev.get("c")))
+                prev = (tuple(ev["devs"]), tuple(ev["clients"]), tuple(map(tuple, ev["pol"])))
+        if batch:
+            last_sample[:] = [batch[-1]]
+        rj, gen, dist = tlc.validate_traces("TraceRouter", cfg, batch)
+        rej.extend(rj)
+        total["traces"] += len(batch)
+        total["tlc_states"] += dist
+    nstates = 0
+    nreplayed = 0
+    for chunk, nstates in traces_from_model_states(tier, r):
+        nreplayed += len(chunk)
+        consume(chunk)
     v.phase("replay_model_states")
     v.notes["model_states"] = nstates
-    v.notes["model_states_replayed"] = len(traces)
+    v.notes["model_states_replayed"] = nreplayed
     n_random = 2000 if tier == "quick" else 50000
+    batch: List[dict] = []
     for i in range(n_random):
         accept, stim = random_history(r, 60)
-        traces.append(run_history(accept, TRACE_CLIENTS, TRACE_NAMES, stim))
-    # bookkeeping
-    for t in traces:
-        prev = None
-        for ev in t["ev"]:
-            v.evaluations += 1
-            v.count_action(ev["op"] if ev["op"] != "msg" else "msg:" + ev["k"])
-            if ev["dlv"] or ev["op"] != "msg" or ev["k"] == "enableBLOB":
-                v.nontrivial((str(prev), ev["op"], ev.get("s"), ev.get("k"), ev.get("n"), ev.get("v"), ev.get("d"), ev.get("c")))
-            prev = (tuple(ev["devs"]), tuple(ev["clients"]), tuple(map(tuple, ev["pol"])))
-    v.sample({"accept": traces[-1]["accept"], "ev": traces[-1]["ev"][:6]})
-    cfg = f"TraceRouter_{prop}.cfg"
-    v.phase("random_histories")
-    rej, gen, dist = tlc.validate_traces("TraceRouter", cfg, traces)
-    v.phase("trace_validation")
-    v.traces_validated = len(traces) - len(rej)
-    v.notes["trace_validation"] = {"traces": len(traces), "rejected": len(rej), "tlc_states": dist}
+        batch.append(run_history(accept, TRACE_CLIENTS, TRACE_NAMES, stim))
+        if len(batch) >= 4000:
+            consume(batch)
+            batch = []
+    consume(batch)
+    v.sample({"accept": last_sample[0]["accept"], "ev": last_sample[0]["ev"][:6]})
+    v.phase("random_histories_and_trace_validation")
+    v.traces_validated = total["traces"] - len(rej)
+    v.notes["trace_validation"] = {"traces": total["traces"], "rejected": len(rej), "tlc_states": total["tlc_states"]}
     for rj in rej[:50]:
         ev = rj.trace["ev"][rj.matched] if rj.matched < len(rj.trace["ev"]) else None
         what = (f"real Router step not allowed by Router.tla ({prop} clauses): event #{rj.matched + 1} "
